@@ -579,4 +579,46 @@ def registeredAttrPrimitives : List (String × String × String × String) := [
   ("pyanalyze/name_check_visitor.py", "NameCheckVisitor.get_attribute", "_get_attribute_fallback", "2"),
   ("pyanalyze/name_check_visitor.py", "NameCheckVisitor.get_attribute", "get_attribute", "2")]
 
+/-- **The flag-threading the model relies on**: every call of the annotation evaluators inside
+`annotations.py` / `arg_spec.py` with the `allow_unpack` / `is_typeddict` keywords it passes, whether the
+enclosing function has an `allow_unpack` parameter of its own, and the number of such calls. The model
+threads `au` through `.str` (`rtEval look au (.str e) = astEval look au e`, i.e. `_type_from_runtime`'s
+`str` branch passes `allow_unpack=allow_unpack` to `_eval_forward_ref`) and resets it to `False` below
+every other constructor except `Annotated` and tuple members. Compared with the regenerated `flagCalls`
+by `Props/C13.lean : unpack_flag_threaded`: a call that drops (or adds) the keyword breaks the obligation. -/
+def registeredFlagCalls : List (String × String × String × String × String × String) := [
+  ("pyanalyze/annotations.py", "_Visitor.visit_Call", "_type_from_value", "", "-", "3"),
+  ("pyanalyze/annotations.py", "_args_from_concatenate", "_type_from_runtime", "", "-", "1"),
+  ("pyanalyze/annotations.py", "_callable_args_from_runtime", "_type_from_runtime", "", "-", "1"),
+  ("pyanalyze/annotations.py", "_eval_forward_ref", "_type_from_ast", "allow_unpack=allow_unpack,is_typeddict=is_typeddict", "flag", "1"),
+  ("pyanalyze/annotations.py", "_get_typeddict_value", "_type_from_runtime", "is_typeddict=True", "-", "1"),
+  ("pyanalyze/annotations.py", "_make_annotated", "_type_from_runtime", "", "-", "4"),
+  ("pyanalyze/annotations.py", "_make_callable_from_value", "_type_from_value", "", "-", "3"),
+  ("pyanalyze/annotations.py", "_make_type_var_value", "_type_from_runtime", "", "-", "3"),
+  ("pyanalyze/annotations.py", "_type_from_ast", "_type_from_value", "allow_unpack=allow_unpack,is_typeddict=is_typeddict", "flag", "1"),
+  ("pyanalyze/annotations.py", "_type_from_runtime", "_eval_forward_ref", "allow_unpack=allow_unpack,is_typeddict=is_typeddict", "flag", "1"),
+  ("pyanalyze/annotations.py", "_type_from_runtime", "_eval_forward_ref", "is_typeddict=is_typeddict", "flag", "1"),
+  ("pyanalyze/annotations.py", "_type_from_runtime", "_type_from_runtime", "", "flag", "3"),
+  ("pyanalyze/annotations.py", "_type_from_runtime", "_type_from_runtime", "is_typeddict=True", "flag", "3"),
+  ("pyanalyze/annotations.py", "_type_from_runtime", "type_from_runtime", "", "flag", "2"),
+  ("pyanalyze/annotations.py", "_type_from_subscripted_value", "_type_from_value", "", "flag", "16"),
+  ("pyanalyze/annotations.py", "_type_from_subscripted_value", "_type_from_value", "allow_unpack=True", "flag", "1"),
+  ("pyanalyze/annotations.py", "_type_from_subscripted_value", "_type_from_value", "is_typeddict=True", "flag", "3"),
+  ("pyanalyze/annotations.py", "_type_from_value", "_type_from_runtime", "allow_unpack=allow_unpack,is_typeddict=is_typeddict", "flag", "1"),
+  ("pyanalyze/annotations.py", "_type_from_value", "_type_from_value", "", "flag", "1"),
+  ("pyanalyze/annotations.py", "_type_from_value", "_type_from_value", "allow_unpack=allow_unpack,is_typeddict=is_typeddict", "flag", "1"),
+  ("pyanalyze/annotations.py", "_value_of_origin_args", "_type_from_runtime", "", "flag", "11"),
+  ("pyanalyze/annotations.py", "_value_of_origin_args", "_type_from_runtime", "allow_unpack=True", "flag", "1"),
+  ("pyanalyze/annotations.py", "_value_of_origin_args", "_type_from_runtime", "allow_unpack=allow_unpack,is_typeddict=is_typeddict", "flag", "1"),
+  ("pyanalyze/annotations.py", "_value_of_origin_args", "_type_from_runtime", "is_typeddict=True", "flag", "3"),
+  ("pyanalyze/annotations.py", "_value_of_origin_args", "type_from_runtime", "", "flag", "1"),
+  ("pyanalyze/annotations.py", "type_from_annotations", "type_from_runtime", "", "-", "1"),
+  ("pyanalyze/annotations.py", "type_from_ast", "_type_from_ast", "", "-", "1"),
+  ("pyanalyze/annotations.py", "type_from_runtime", "_type_from_runtime", "allow_unpack=allow_unpack", "flag", "1"),
+  ("pyanalyze/annotations.py", "type_from_value", "_type_from_value", "allow_unpack=allow_unpack,is_typeddict=is_typeddict", "flag", "1"),
+  ("pyanalyze/arg_spec.py", "ArgSpecCache._get_generic_bases_cached", "type_from_runtime", "", "-", "1"),
+  ("pyanalyze/arg_spec.py", "ArgSpecCache._get_type_for_parameter", "type_from_runtime", "allow_unpack=kind.allow_unpack()", "-", "1"),
+  ("pyanalyze/arg_spec.py", "ArgSpecCache._uncached_get_argspec", "type_from_runtime", "", "-", "2"),
+  ("pyanalyze/arg_spec.py", "ArgSpecCache.from_signature", "type_from_runtime", "", "-", "1")]
+
 end Pya.C13
